@@ -334,6 +334,33 @@ def run_shard(ctx):
                         identify_case(ctx, mods, f"syn-{'deep' if deep else 'root'}-{'junk' if junk else 'clean'}-{tname}",
                                       p, markers=set(markers), at_offset0=not junk)
                         os.remove(p)
+    # archive root directories (torch takes them from the file stem) with characters that are ordinary text but not
+    # "printable" / not ASCII: ideographic space, no-break space, zero-width non-joiner, combining marks, private use, emoji
+    odd_dirs = ["\u6a21\u578b\u3000v2", "mod\u00e8le\u00a0final", "\u0645\u062f\u0644\u200c\u0646\u0647\u0627\u06cc\u06cc", "e\u0301te\u0301",
+                "priv\ue000ate", "\U0001f600model", "with space", "tab\tname"]
+    for di, dn in enumerate(odd_dirs):
+        for markers in (["data.pkl", "constants.pkl", "version"], ["data.pkl"], ["model.json", "constants.pkl"], ["data.pkl", "constants.pkl"]):
+            i += 1
+            if i % ctx.nshards == ctx.shard:
+                p = os.path.join(ctx.scratch, "odd_dir.zip")
+                torchfiles.synthetic_zip(p, markers, True, dirname=dn)
+                identify_case(ctx, mods, f"syn-odd-directory-{di}", p, markers=set(markers))
+                os.remove(p)
+    # ... and real torch files saved under such names (where the file system encoding can spell them)
+    import sys
+    if sys.getfilesystemencoding().lower().replace("-", "") in ("utf8",):
+        for di, dn in enumerate(odd_dirs[:4]):
+            i += 1
+            if i % ctx.nshards == ctx.shard:
+                p = os.path.join(ctx.scratch, dn + ".pt")
+                try:
+                    torch.jit.save(torch.jit.script(torch.nn.Linear(2, 2)), p)
+                except Exception:
+                    continue
+                r = identify_case(ctx, mods, f"real-jit-odd-name-{di}", p)
+                if r is not None:
+                    ctx.agg.hist("real_file_formats", f"jit-odd-name-{di}: {r}")
+                os.remove(p)
     # scale: archives with more members than any per-archive cap one might think of, the markers written last
     for filler in (9999, 10001, 70000):
         for markers in (["data.pkl", "constants.pkl", "version"], ["data.pkl"], ["model.json", "constants.pkl"]):
